@@ -17,6 +17,31 @@ def msym(rx):
     if len(ms) != 1: raise core.BuildError('C13: %d symbols match %s' % (len(ms), rx))
     return 'F_' + core.cname(ms[0])
 
+TC = r'^chaiscript::Type_Conversions::'
+K3_ROOTS = [TC + r'add_conversion\(', TC + r'has_conversion\(', TC + r'get_conversion\(', TC + r'thread_cache\(\)', TC + r'converts\(chaiscript::Type_Info const&']
+K3_STUBS = [r'std::set<.*>::(insert|count)[<(]', r'std::_Rb_tree<.*>::(_M_|operator=|find)', r'std::out_of_range::', r'std::__detail::_Map_base<.*>::operator\[\]']
+
+def conversions_harness():
+    g, info = core.translate(FAM, K3_ROOTS, K3_STUBS + core.STRING_MODEL, tag='K3_probe')
+    txt = core.fread(g)
+    m = re.search(r'^(struct agg\d+) F__ZNSt3setISt10shared_ptrIN10chaiscript6detail20Type_Conversion_BaseEE\w+6insertERKS4_\(', txt, re.M)
+    if not m: raise core.BuildError('C13 K3: set<shared_ptr<Type_Conversion_Base>>::insert is not called by add_conversion any more')
+    ext = [e.split('|')[0].strip() for e in info['ext']]
+    def one(pat):
+        ms = [e for e in ext if re.search(pat, e)]
+        if len(ms) != 1: raise core.BuildError('C13 K3: expected exactly one external matching %s, found %d' % (pat, len(ms)))
+        return 'F_' + core.cname(ms[0])
+    d = {'INS_AGG': m.group(1), 'SET_INSERT': one(r'^_ZNSt3setISt10shared_ptrIN10chaiscript6detail20Type_Conversion_BaseEE\w+6insertERKS4_$'), 'TYPES_INSERT': one(r'^_ZNSt3setIPKSt9type_info\w+6insertESt16initializer_list'),
+         'CACHE_SLOT': one(r'_Map_baseImSt4pairIKmSt3setIPKSt9type_info'), 'TREE_ASSIGN': one(r'^_ZNSt8_Rb_treeIPKSt9type_info\w+aSERKS9_$'), 'SET_COUNT_FN': one(r'^_ZNKSt3setIPKSt9type_info\w+5countERKS2_$'),
+         'E_ADD': core.csym(FAM, K3_ROOTS[0]), 'E_HAS': core.csym(FAM, K3_ROOTS[1]), 'E_GET': core.csym(FAM, K3_ROOTS[2]), 'E_CACHE': core.csym(FAM, K3_ROOTS[3]), 'E_CONVERTS': core.csym(FAM, K3_ROOTS[4]),
+         'VERIF_STRCMP_BY_IDENTITY': 1, 'STRING_LITERALS_OPAQUE': 1}
+    W = {1: ('witness: duplicate rejected', 'witness: registered with new types', 'witness: registered, types known'), 2: ('witness: found', 'witness: not found'), 3: ('witness: found', 'witness: not found'),
+         4: ('witness: refreshed', 'witness: up to date'), 5: ('witness: converts', 'witness: does not convert')}
+    N = {1: 'add_conversion', 2: 'has_conversion', 3: 'get_conversion', 4: 'thread_cache', 5: 'converts'}
+    return Harness('K3.conversions(lock discipline, publication, lookup)', FAM, K3_ROOTS, 'c13_conversions.c', stubs=K3_STUBS, shapes=[dict(d, ENTRY=e, _tag='entry=' + N[e], _witness=W[e]) for e in sorted(N)],
+                   opts=['--unwind', '5'], timeout=600, mem_gb=8, string_model=True, inputs=['nconv', 'ntypes', 'c_to', 'c_from', 'to', 'from'],
+                   note='0-2 registered conversions over 3 types; the shared tables show a poison state while the mutex is not held, so unlocked reads assert; set insert/copy/count are recorders; thread-local slot lookup is a stub (C14)')
+
 def harnesses(tier):
     roots = [rx for _, rx in ENTRIES.values()]
     g, info = core.translate(FAM, roots, STUBS + core.STRING_MODEL, tag='K1_locks')
@@ -39,10 +64,10 @@ def harnesses(tier):
         shapes.append(dict(d, ENTRY=e, _tag='entry=' + nm, _witness=tuple(wit)))
     from props import C19
     u = C19.use_harness(tier); u.name = 'K2.use(lock discipline and evaluate-once)'
-    return [u, Harness('K1.lock_discipline', FAM, roots, 'c13_lock.c', stubs=STUBS, shapes=shapes, opts=['--unwind', '4'], timeout=300, mem_gb=6, string_model=True,
+    return [u, conversions_harness(), Harness('K1.lock_discipline', FAM, roots, 'c13_lock.c', stubs=STUBS, shapes=shapes, opts=['--unwind', '4'], timeout=300, mem_gb=6, string_model=True,
                     defines={'STRING_LITERALS_OPAQUE': 1}, inputs=['name', 'objd'], note='table operations are stubs asserting the lock state; outcome of find/insert is symbolic (found / not found, inserted / conflict)')]
 
 ASSUMPTIONS = ['pthread_rwlock_* are a lock-state model; std::map member functions on engine tables are stubs that assert the lock mode and return arbitrary outcomes',
                'single-threaded symbolic execution: this shows a lock discipline (sufficient condition the code relies on), not absence of races by exploration']
 OUTSIDE = ['schedule exploration (no engine here can run libstdc++ shared_mutex under a scheduler)', 'races on element payloads reached through pointers read under the lock',
-           'entries not listed (add_function, get_functions, get_function_objects, conversions, ChaiScript_Basic::eval)']
+           'entries not listed (get_functions, get_function_objects, ChaiScript_Basic::eval; add_function: C15 U2); more than two registered conversions']
